@@ -19,6 +19,7 @@ def _reexec_if_needed():
         env["SHEXER_VERIF"] = "1"
         env["DSIM_NO_REEXEC"] = "1"
         env["PYTHONDONTWRITEBYTECODE"] = "1"
+        env["PYTHONUTF8"] = "1"          # files, pipes and default encodings are UTF-8 whatever the caller's locale
         os.execve(sys.executable, [sys.executable] + sys.argv, env)
 
 
